@@ -65,6 +65,21 @@ type vC05StrictJob struct {
 	ednsWriter edns.ResponseWriter
 }
 
+// rearm prepares the slot for the next packet the way an engine's job slab is reused: the strict-path
+// storage (request, chain, carrier, edns writer) and the TX buffer are NOT cleared.  The TX buffer is
+// left holding the previous reply (dirty = false) or poisoned with 0xFF (dirty = true): a reply must
+// never depend on what the lease held before.
+func (j *vC05StrictJob) rearm(ip net.IP, dirty bool) {
+	j.ip = ip
+	j.wrote = j.wrote[:0]
+	j.writes = 0
+	if dirty {
+		for i := range j.tx {
+			j.tx[i] = 0xFF
+		}
+	}
+}
+
 func (j *vC05StrictJob) LeaseWire(capacity int) []byte {
 	if capacity > len(j.tx) {
 		return nil
@@ -1147,6 +1162,10 @@ func vC05Classify(handled bool, wrote bool, reply []byte) int {
 	return vC05VOther
 }
 
+// the strict ingress phase serves every packet through ONE job slot (reused like an engine slab)
+var vC05IngressJob = &vC05StrictJob{}
+var vC05IngressCount int
+
 func vC05Ingress(s *Server, raw []byte, strict bool) (int, []byte, bool) {
 	header, ok := wire.ParseHeader(raw)
 	if !ok {
@@ -1162,9 +1181,12 @@ func vC05Ingress(s *Server, raw []byte, strict bool) (int, []byte, bool) {
 	}
 	ip := net.IPv4(203, 0, 113, 9)
 	if strict {
-		job := &vC05StrictJob{ip: ip}
+		job := vC05IngressJob
+		vC05IngressCount++
+		job.rearm(ip, vC05IngressCount%3 != 0)
 		handled := s.ServeRaw(job, raw, time.Now())
-		return vC05Classify(handled, job.writes > 0, job.wrote), job.wrote, job.writes > 0
+		out := append([]byte(nil), job.wrote...)
+		return vC05Classify(handled, job.writes > 0, out), out, job.writes > 0
 	}
 	m := new(dns.Msg)
 	if err := m.Unpack(raw); err != nil {
@@ -1250,6 +1272,10 @@ func vC05RunScenario(t vC05Toggles, hostsPath string, steps []vC05Step) []vC05St
 	}
 	// --- wire side
 	sw := vC05NewServer(t, hostsPath)
+	// one transport job slot for the whole history, as the engines reuse a slab: strict-path storage
+	// and TX lease carry over from packet to packet (poisoned with 0xFF two times out of three, holding
+	// the previous reply otherwise)
+	wjob := &vC05StrictJob{tcp: t.tcp}
 	ctl := func(vs *vC05Server, st vC05Step) bool {
 		switch st.ctl {
 		case "shift":
@@ -1277,7 +1303,8 @@ func vC05RunScenario(t vC05Toggles, hostsPath string, steps []vC05Step) []vC05St
 		} else {
 			before := vC05WireOutcomes()
 			now := time.Now()
-			job := &vC05StrictJob{ip: st.ip, tcp: t.tcp}
+			job := wjob
+			job.rearm(st.ip, i%3 != 0)
 			handled := true
 			if t.inline && sw.s.InlineReady() {
 				done := sw.s.ServeRawInline(job, st.raw, now)
@@ -1670,6 +1697,13 @@ func TestVerifC05Differential(t *testing.T) {
 			pk("ca1", 28, 0x0100, false, true, 1232), pk("pos2", 28, 0x0100, false, true, 1232), pk("ca1", 28, 0x0100, false, true, 1232))
 		add2(vC05Toggles{prefetch: true, inline: inline}, pk("cb0", 1, 0x0100, false, true, 1232), sh(100), pk("ca0", 1, 0x0100, false, true, 1232), pk("ca0", 1, 0x0100, false, true, 1232), sh(175),
 			pk("ca0", 1, 0x0100, false, true, 1232), pk("ca0", 1, 0x0100, false, true, 1232), pk("pos0", 1, 0x0100, false, true, 1232), sh(20), pk("ca0", 1, 0x0100, false, true, 1232), pk("cb0", 1, 0x0100, false, true, 1232))
+	}
+	// one job slot, realistic leftovers: a validated (AD=1) byte-served hit for a DO client stays in the TX
+	// lease, then the cached failure is served from bytes on the same slot at a step whose lease is NOT
+	// poisoned (step index divisible by 3) - the reply header must not inherit AD/TC/Z from the lease
+	for _, inline := range []bool{false, true} {
+		add2(vC05Toggles{inline: inline}, pk("sf0", 1, 0x0100, false, true, 1232), pk("sig0", 1, 0x0100, true, true, 1232), pk("sig0", 1, 0x0120, true, true, 1232),
+			pk("sf0", 1, 0x0100, false, true, 1232), pk("sig0", 1, 0x0100, true, true, 1232), pk("nx1", 1, 0x0100, true, true, 1232), pk("a.nx1", 1, 0x0100, false, true, 1232), pk("sig0", 1, 0x0120, true, true, 1232), pk("big0", 16, 0x0100, false, true, 512), pk("sf0", 1, 0x0100, false, false, 0))
 	}
 	// client subnet forwarding: enabled for everybody / for an allow-list, clients reported in 16-byte
 	// (IPv4-mapped) and 4-byte form and IPv6, inside and outside the list; misses, hits, other subnets,
